@@ -251,3 +251,88 @@ Definition reorder_funcs (te : tyenv) (funcs : list prov) : res (list prov) :=
   let pick i := match getp funcs i with Some p => [p] | None => [] end in
   let result := flat_map pick out ++ flat_map (fun i => map (set_cannot true) (pick i)) missing in
   if length result =? n then Ok result else Err EB_INTERNAL.
+
+(* ---------- fuel of the topological sort (proofs/TopoFuel.v) ---------- *)
+(* the graph and the initial queues, as reorder_funcs builds them *)
+Definition reorder_prepare (te : tyenv) (funcs : list prov) : rstate * topo :=
+  let n := length funcs in
+  let idx := seq_from 0 n in
+  let initPos := find_class ClInit funcs 0 in
+  (* availableDown / availableUp; init's parameters first, at layer 0 *)
+  let availDown0 := match initPos with
+                    | Some ip => match getp funcs ip with
+                                 | Some p => fold_left (fun m t => im_add t 0 ip m) (no_no te (pflow p FOut)) []
+                                 | None => [] end
+                    | None => [] end in
+  let availDown := fold_left (fun m i => match getp funcs i with
+                      | Some p => fold_left (fun m' t => im_add t i i m') (no_no te (pflow p FOut)) m
+                      | None => m end) idx availDown0 in
+  let availUp := fold_left (fun m i => match getp funcs i with
+                      | Some p => fold_left (fun m' t => im_add t i i m') (no_no te (pflow p FRet)) m
+                      | None => m end) idx [] in
+  let lastStatic := fold_left (fun acc i => if flagp (fun p => group_eqb (p_group p) GStatic && negb (is_reorder p)) funcs i
+                                            then Some i else acc) idx None in
+  let pbnr := fold_left (fun m i => match getp funcs i with
+                      | Some p => fold_left (fun m' t => if memb t (no_no te (pflow p FIn)) then m' else madd t i m')
+                                            (no_no te (pflow p FOut)) m
+                      | None => m end) idx [] in
+  let rnr := fold_left (fun m i => match getp funcs i with
+                      | Some p => fold_left (fun m' t => if memb t (no_no te (pflow p FRet)) then m' else madd t i m')
+                                            (no_no te (pflow p FRecv)) m
+                      | None => m end) idx [] in
+  let st := fold_left (fun st i => match getp funcs i with
+                      | Some p => edges_for te funcs availDown availUp pbnr rnr lastStatic i p st
+                      | None => st end) idx (mkRs [] [] [] [] (S n) [] None) in
+  let counter := rs_counter st in
+  let nodes0 := repeat empty_node counter in
+  let nodes1 := fold_left (fun ns (pr : nat * nat) =>
+                   upd_node (fst pr) (fun d => mkRnode (n_before d) (sadd (snd pr) (n_after d)) (n_wbefore d) (n_wafter d))
+                     (upd_node (snd pr) (fun d => mkRnode (sadd (fst pr) (n_before d)) (n_after d) (n_wbefore d) (n_wafter d)) ns))
+                 (rs_strong st) nodes0 in
+  let nodes2 := fold_left (fun ns (pr : nat * nat) =>
+                   upd_node (fst pr) (fun d => mkRnode (n_before d) (n_after d) (n_wbefore d) (sadd (snd pr) (n_wafter d)))
+                     (upd_node (snd pr) (fun d => mkRnode (n_before d) (n_after d) (sadd (fst pr) (n_wbefore d)) (n_wafter d)) ns))
+                 (rs_weak st) nodes1 in
+  (* mutual weak edges are dropped *)
+  let nodes3 := fold_left (fun ns (pr : nat * nat) =>
+                   let a := fst pr in let b := snd pr in
+                   if negb (memb b (n_wbefore (nth_node a ns))) then ns else
+                   let ns1 := upd_node b (fun d => mkRnode (n_before d) (n_after d) (sdel a (n_wbefore d)) (n_wafter d)) ns in
+                   let ns2 := upd_node a (fun d => mkRnode (n_before d) (n_after d) (sdel a (n_wbefore d)) (n_wafter d)) ns1 in
+                   let ns3 := upd_node a (fun d => mkRnode (n_before d) (n_after d) (n_wbefore d) (sdel b (n_wafter d))) ns2 in
+                   upd_node b (fun d => mkRnode (n_before d) (n_after d) (n_wbefore d) (sdel b (n_wafter d))) ns3)
+                 (rs_weak st) nodes2 in
+  let x0 := mkTopo nodes3 (rs_cannot st) [] [] [] [] in
+  let x1 := init_push te funcs (rs_down st) x0 in
+  (st, x1).
+
+Definition reorder_fuel (st : rstate) : nat := 4 * (rs_counter st + 2) * (rs_counter st + 2).
+
+Definition befs (ns : list rnode) : list (list nat) := map n_before ns.
+Definition qlen (x : topo) : nat := length (t_unblocked x) + length (t_weak x) + length (t_cannot x).
+
+Section Potential.
+  Variable te : tyenv.
+  Variable funcs : list prov.
+  (* what processing node i may add to the queues, plus one *)
+  Definition cost (bs : list (list nat)) (i : nat) : nat :=
+    1 + length (nth i bs []) +
+    match getp funcs i with
+    | Some p => length (no_no te (pflow p FOut)) + length (no_no te (pflow p FRecv))
+    | None => 0
+    end.
+  Fixpoint pend_from (bs : list (list nat)) (done : list nat) (l : list nat) : nat :=
+    match l with
+    | [] => 0
+    | i :: r => (if memb i done then 0 else cost bs i) + pend_from bs done r
+    end.
+  Definition pend (bs : list (list nat)) (done : list nat) : nat := pend_from bs done (seq 0 (length bs)).
+  Definition phi (x : topo) : nat := qlen x + pend (befs (t_nodes x)) (t_done x).
+End Potential.
+
+(* the fuel reorder_funcs gives its topological sort is at least the potential of the start state *)
+Definition reorder_fuel_ok (te : tyenv) (funcs : list prov) : bool :=
+  negb (existsb is_reorder funcs) ||
+  (let '(st, x1) := reorder_prepare te funcs in
+   (length funcs <? length (t_nodes x1)) && (phi te funcs x1 <=? reorder_fuel st)).
+
